@@ -70,7 +70,8 @@ def check(run: Run, prog: Program, model: Model, tier: str) -> None:
         "value[k] with deepcopy(path)[k] for the same k; a PathHolder may be indexed only when it is an owned copy; "
         "the extra arguments of an error must be operands of the guard that selected it. Formatter methods are "
         "checked structurally (path rendered, dispatch and attribute agreement). Holds for all nesting depths by "
-        "induction over the schema tree (each method is checked assuming members satisfy the same contract).")
+        "induction over the schema tree (each method is checked assuming members satisfy the same contract)."
+        " The failing guard of a relational error must test the reported value itself (not round()/int() of it). Formatter rules are decided by abstract evaluation of the format() method of each error class on an instance built by its own __init__.")
     run.rule_text = ("obligations = distinct (method, error class / descent site / index site) instances over all explored paths; "
                      "non-trivial = provenance established through inlined helpers, loop variables or aliasing locals")
     run.trusted += ["th.PathHolder.__getitem__/__getattr__ append to the holder in place and return it; its __copy__ is shallow "
